@@ -22,6 +22,9 @@ func (e *Env) DefineValue(symbol string, value reflect.Value) error {
 	if strings.Contains(symbol, ".") {
 		return ErrSymbolContainsDot
 	}
+	if !value.IsValid() {
+		return ErrInvalidValue
+	}
 	e.rwMutex.Lock()
 	if e.values == nil {
 		e.values = make(map[string]reflect.Value)
@@ -61,6 +64,9 @@ func (e *Env) Set(symbol string, value interface{}) error {
 
 // SetValue reflect value to the scope where symbol is first found.
 func (e *Env) SetValue(symbol string, value reflect.Value) error {
+	if !value.IsValid() {
+		return ErrInvalidValue
+	}
 	e.rwMutex.Lock()
 	if _, ok := e.values[symbol]; ok {
 		e.values[symbol] = value
